@@ -130,18 +130,20 @@ def multiline_mutant(ch):
     # make sure there are line breaks + indentation
     brk = ch.pick(['\n', '\r\n', '\r', '\n  ', '\r\n\t'])
     text = text.replace(', ', ',' + brk, 2) if ', ' in text else text + brk
-    mode = ch.i(0, 6)
-    if mode == 0:
-        text = text + ch.pick([' >', ',', ' +', ':is(', ':not(a', '[a', '!', brk + '!', ':nth-child(', ')', ']', '\\'])
-    elif mode == 1:
-        text = ch.pick(['>', ',', '!', ')', '+ a', '~']) + brk + text
-    elif mode == 2:
-        pos = ch.i(0, len(text))
-        text = text[:pos] + ch.pick(['!', '%', '::', '@', '$', '{', brk + ')', ',,', '> >', '[=]', ':bogus', ':nth-child(x)']) + text[pos:]
-    elif mode == 3:
-        text = c06.mutate(ch, text)
-    elif mode == 4:
-        text = text[:ch.i(0, len(text))]
+    # one or two mistakes: with two, the one that comes first in the pattern is the one that must be reported
+    for _ in range(2 if ch.p(0.4) else 1):
+        mode = ch.i(0, 6)
+        if mode == 0:
+            text = text + ch.pick([' >', ',', ' +', ':is(', ':not(a', '[a', '!', brk + '!', ':nth-child(', ')', ']', '\\'])
+        elif mode == 1:
+            text = ch.pick(['>', ',', '!', ')', '+ a', '~']) + brk + text
+        elif mode == 2:
+            pos = ch.i(0, len(text))
+            text = text[:pos] + ch.pick(['!', '%', '::', '@', '$', '{', brk + ')', ',,', '> >', '[=]', ':bogus', ':nth-child(x)']) + text[pos:]
+        elif mode == 3:
+            text = c06.mutate(ch, text)
+        elif mode == 4:
+            text = text[:ch.i(0, len(text))]
     return text
 
 
@@ -223,12 +225,12 @@ def check_debug_and_pretty(text, check_pretty=True):
         (plain, _o) = quiet(sv.compile, text, NS, custom=CUSTOM)
         perr = None
     except Exception as e:  # noqa: BLE001
-        plain, perr = None, type(e).__name__
+        plain, perr = None, (type(e).__name__, str(e))
     try:
         (dbg, out) = quiet(sv.compile, text, NS, sv.DEBUG, custom=CUSTOM)
         derr = None
     except Exception as e:  # noqa: BLE001
-        dbg, derr = None, type(e).__name__
+        dbg, derr = None, (type(e).__name__, str(e))
     if perr != derr:
         fails.append(('debug-changes-outcome', f'{text!r}: plain {perr or "compiles"}, DEBUG {derr or "compiles"}'))
         return fails, None
@@ -308,6 +310,13 @@ def shard(ctx):
                     col.nontrivial_case(['parse', text], {'pattern': text[:200], 'lines': len(lines)})
             if out:
                 col.fail(out[0], {'parse': text}, out[1])
+            if verdict != 'valid':
+                # DEBUG changes no result: the same exception, message and location with and without the flag
+                fails, _info = check_debug_and_pretty(text, check_pretty=False)
+                col.count()
+                col.classify('debug-on-invalid')
+                for b, d in fails[:1]:
+                    col.fail(b, {'text': text}, d)
         else:
             sl = FG.gen_list(ch, DCFG, max_items=2)
             text = respell.Respeller(ch, 'all', 0.2).pattern(sl) if ch.p(0.5) else S.render_list(sl)
